@@ -294,14 +294,30 @@ def judgeC09 (ops : List OpRec) : List String :=
             let s := if some p.time == time.toInt? then s else viol s "C09-list-offsets-body" op s!"time {p.time}"
             if leaderHost s.cluster t p.partition == some h then s else viol s "C09-list-offsets-route" op s!"{toHexTok t}/{p.partition} asked of {toHexTok h}") s) s
         | _ => viol s "C09-wrong-api" op "list_offsets emitted another request") s
-    | _ :: "produce" :: acks :: secs :: nanos :: _ =>
+    | _ :: "produce" :: acks :: secs :: nanos :: args =>
       let to := match secs.toNat?, nanos.toNat? with
         | some a, some b => (Model.toMillisI32 a b).toOption
         | _, _ => none
-      reqs.foldl (fun s (_, r) => match r.body with
+      let s := reqs.foldl (fun s (_, r) => match r.body with
         | .produce a t _ =>
           if some a == acks.toInt? && some t == to then s else viol s "C09-produce-body" op s!"acks {a} timeout {t}"
         | _ => viol s "C09-wrong-api" op "produce emitted another request") s
+      -- the body states exactly the records asked for: per (topic, partition) the given keys and values, in the given order,
+      -- and nothing else
+      match parseProduceArgs args with
+      | none => s
+      | some pas =>
+        if reqs.isEmpty then s else
+        let keys : List (Bytes × Int) := pas.foldl (fun (acc : List (Bytes × Int)) (a : Model.ProduceArg) => if acc.contains (a.topic, a.partition) then acc else acc ++ [(a.topic, a.partition)]) []
+        let want : List String := keys.map fun (t, p) =>
+          let recs := (pas.filter fun (a : Model.ProduceArg) => a.topic == t && a.partition == p).map fun (a : Model.ProduceArg) => s!"{repr a.key}/{repr a.value}"
+          s!"{toHexTok t}|{p}|{recs}"
+        let got : List String := reqs.flatMap fun (x : Bytes × Spec.Request) => match x.2.body with
+          | .produce _ _ ts => ts.flatMap fun (tp : Bytes × List (Int × Bytes)) => tp.2.map fun (ps : Int × Bytes) =>
+              s!"{toHexTok tp.1}|{ps.1}|{(openSet ps.2).map fun (m : Spec.Msg) => s!"{repr m.key}/{repr m.value}"}"
+          | _ => []
+        if sortBy (· < ·) want == sortBy (· < ·) got then s
+        else viol s "C09-produce-content" op s!"the requests state {sortBy (· < ·) got}, asked for {sortBy (· < ·) want}"
     | _ :: "commit_offsets" :: g :: args =>
       match fromHex g, parseTPO args with
       | some g, some tpo =>
@@ -1312,11 +1328,7 @@ def judgeC01 (ops : List OpRec) : List String :=
       | _, _, _ => s
     | ["poll"] =>
       if !s.live then s else
-      if op.result.startsWith "err" || op.result == "panic" || op.result == "noobj" then s else
-      let sets := pollSets op.result
-      -- the emptiness flag agrees with what iterating yields
-      let flagEmpty := (op.result.splitOn " ").getD 1 "" == "empty=1"
-      let s := if flagEmpty == sets.isEmpty then s else v s "C01-empty-flag" op s!"is_empty() = {flagEmpty} but iterating yields {sets.length} message set(s)"
+      if op.result == "noobj" then s else
       -- the first fetch after creation / seek reveals the start offset when it is not known yet
       let reqOffsets : List ((Bytes × Int) × Int) := (framesOf op).flatMap fun (x : Bytes × Request) => match x.2.body with
         | ReqBody.fetch _ _ _ ts => ts.flatMap fun (tp : Bytes × List FetchPart) => tp.2.map fun (fp : FetchPart) => ((tp.1, fp.partition), fp.offset)
@@ -1326,6 +1338,23 @@ def judgeC01 (ops : List OpRec) : List String :=
         | some (_, (some _, _)) => s
         | some (_, (none, dl)) => { s with parts := (s.parts.filter fun (y : (Bytes × Int) × (Option Int × List String)) => y.1 != x.1) ++ [(x.1, (some x.2, dl))] }
         | none => { s with parts := s.parts ++ [(x.1, (some x.2, []))] }) s
+      -- what is asked for next is what follows the last delivered message (or the start offset): an offset that moved
+      -- although nothing was delivered skips messages, one that moved back delivers twice
+      let s := reqOffsets.foldl (fun (s : J01) (x : (Bytes × Int) × Int) =>
+        match s.parts.find? (fun (y : (Bytes × Int) × (Option Int × List String)) => y.1 == x.1) with
+        | some (_, (some start, dl)) =>
+          let expected : Int := match dl.getLast? with
+            | some m => (((m.splitOn ":").head?).bind (·.toInt?)).getD start + 1
+            | none => start
+          if x.2 == expected then s
+          else v s (if x.2 > expected then "C01-offset-moved-without-delivery" else "C01-offset-moved-back") op s!"{toHexTok x.1.1}/{x.1.2}: fetch asks from offset {x.2}; delivered so far {dl.length} message(s) from start {start}, so {expected} is next"
+        | _ => s) s
+      -- (the requests of a failed poll were judged above; it delivers nothing)
+      if op.result.startsWith "err" || op.result == "panic" then s else
+      let sets := pollSets op.result
+      -- the emptiness flag agrees with what iterating yields
+      let flagEmpty := (op.result.splitOn " ").getD 1 "" == "empty=1"
+      let s := if flagEmpty == sets.isEmpty then s else v s "C01-empty-flag" op s!"is_empty() = {flagEmpty} but iterating yields {sets.length} message set(s)"
       -- every delivered set extends "the log from the start offset onward": exactly once, in order, right label
       sets.foldl (fun (s : J01) (x : (Bytes × Int) × List String) =>
         match s.cluster.part? x.1.1 x.1.2, s.parts.find? (fun (y : (Bytes × Int) × (Option Int × List String)) => y.1 == x.1) with
@@ -1343,7 +1372,9 @@ def judgeC01 (ops : List OpRec) : List String :=
   -- at the end of a scenario that finished with fault-free polls: nothing retained was left undelivered
   let s := match ops.getLast? with
     | some last =>
-      if last.toks == ["poll"] && last.result == "ok empty=1" then
+      -- (an entry that fits no permitted fetch size is *reported* — C17 — and stays undelivered by design)
+      let reported := ops.any fun (o : OpRec) => o.toks == ["poll"] && o.result == "err Kafka(10)"
+      if last.toks == ["poll"] && last.result == "ok empty=1" && !reported then
         s.parts.foldl (fun (s : J01) (x : (Bytes × Int) × (Option Int × List String)) =>
           match s.cluster.part? x.1.1 x.1.2, x.2.1 with
           | some ps, some start =>
@@ -1474,7 +1505,11 @@ def judgeC17 (ops : List OpRec) : List String :=
           let s := if asked.map (fun (x : Bytes × Int × Int × Nat) => (x.1, x.2.1)) == [q] then s
             else v s "C17-not-alone" op s!"{toHexTok q.1}/{q.2} was due for a fetch of its own; this poll asked for {asked.map fun (x : Bytes × Int × Int × Nat) => (toHexTok x.1, x.2.1)}"
           { s with queue := rest }
-        | [] => s
+        | [] =>
+          -- nothing is due for a fetch of its own: every partition is asked for, the others keep being delivered
+          let ioFault := op.evs.any (fun e => match e with | .io _ _ => true | .connect _ ok => !ok | _ => false)
+          if ioFault || asked.isEmpty || totalAsked == s.nparts then s
+          else v s "C17-others-starved" op s!"no partition is due for a fetch of its own, yet this poll asked for {asked.map fun (x : Bytes × Int × Int × Nat) => (toHexTok x.1, x.2.1)} only ({s.nparts} partitions are assigned)"
       -- 2. outcome per partition from the broker's answers
       let answers : List ((Bytes × Int) × (Bool × Bool)) := bodies.flatMap fun (x : Bytes × Request × RespBody) =>
         let reqOff (t : Bytes) (p : Int) : Int := match x.2.1.body with
